@@ -16,4 +16,5 @@ _whole.install(globals(), "C06",
                front_ends=["driver", "stops", "ctor"], quick=240, thorough=6000, nontrivial=nontrivial,
                forces=[(4, None), (1, {"height": 2, "engines": ["SEA", "Local"], "objective_kind": "zero", "levels_patch": [{}, {"method": "L-BFGS-B"}]}),
                        (1, {"height": 2, "engines": ["DE", "Local"], "objective_kind": "plateau", "levels_patch": [{}, {"method": "L-BFGS-B"}]}),
-                       (1, {"height": 3, "hibernation": True}), (1, {"height": 2, "engines": ["SHADE", "SHADE"]})])
+                       (1, {"height": 3, "hibernation": True}), (1, {"height": 2, "engines": ["SHADE", "SHADE"]}),
+                       (1, {"height": 2, "engines": ["SHADE", "SHADE"], "levels_patch": [{"lsc": {"kind": "MetaepochLimit", "n": 3}}, {"lsc": {"kind": "MetaepochLimit", "n": 2}}]})])
